@@ -2,10 +2,10 @@ SPECIFICATION Spec
 VIEW view
 CONSTANTS
   OffsMod = 65536
-  Kind = "uint"
-  Atoms <- AtomsNum
-  MaxLen = 5
-  Cfgs <- Cfgs0
+  Kind = "cseq"
+  Atoms <- AtomsCSeq
+  MaxLen = 6
+  Cfgs <- Cfgs03
   Junk = 34
   EmitOn = TRUE
 INVARIANTS ResumeEqFresh Stable OffsSane Emit
